@@ -669,6 +669,136 @@ impl CaseSpace for Datagrams {
     }
 }
 
+// ---------------------------------------------------------------------------------------
+// stream mode, discard: a frame cut right after its header, then fragments
+// ---------------------------------------------------------------------------------------
+
+/// A read ends right after the header of a frame whose body never arrives (serial line noise,
+/// `LinkErrorMode::Discard`); the following reads carry well-formed fragments.  Lost payload {1, 20}
+/// x fragment length {30, 249, 250, 498} x {one frame per read, every frame of the fragment in
+/// one read}: only the cut frame is lost, both fragments that follow are delivered as sent.
+struct CutAfterHeader;
+
+const CH_LOST: [usize; 2] = [1, 20];
+const CH_LENS: [usize; 4] = [30, 249, 250, 498];
+
+impl CaseSpace for CutAfterHeader {
+    fn name(&self) -> String {
+        "stream-discard-frame-cut-after-its-header".to_string()
+    }
+    fn total(&self) -> usize {
+        CH_LOST.len() * CH_LENS.len() * 2
+    }
+    fn run(&self, index: usize, transcript: bool) -> RunResult {
+        let mut res = RunResult::default();
+        let lost_len = CH_LOST[index % 2];
+        let len = CH_LENS[(index / 2) % 4];
+        let per_frame = index / 8 == 0;
+        res.obs = index as u64 + 383838;
+        let frag = body(len, 5);
+        let tail = body(3, 9);
+        let frame = |s: &Vec<u8>| link::frame(link::DIR | link::PRM | link::PRI_UNCONFIRMED_USER_DATA, OWN, PEER, s);
+        let mut r = TransportReaderSeam::new(false, OWN, false, false, false, 2048, false);
+        let mut got = Vec::new();
+        let mut err = None;
+        let mut feed = |r: &mut TransportReaderSeam, bytes: &[u8], got: &mut Vec<TransportOut>, err: &mut Option<String>| {
+            r.handle.push(bytes);
+            let (o, e) = r.drain();
+            got.extend(o);
+            if e.is_some() && err.is_none() {
+                *err = e;
+            }
+        };
+        let cut = frame(&transport::segment(&body(lost_len, 3), 0)[0]);
+        feed(&mut r, &cut[..10], &mut got, &mut err);
+        let mut seq = 20u8;
+        for f in [&frag, &tail] {
+            let segs = transport::segment(f, seq);
+            seq = (seq + segs.len() as u8) & 0x3F;
+            if per_frame {
+                for sgm in &segs {
+                    feed(&mut r, &frame(sgm), &mut got, &mut err);
+                }
+            } else {
+                let all: Vec<u8> = segs.iter().flat_map(|sgm| frame(sgm)).collect();
+                feed(&mut r, &all, &mut got, &mut err);
+            }
+        }
+        res.transitions += 3;
+        if transcript {
+            res.transcript.push(format!("header of a frame with {lost_len} payload octets, then fragments of {len} and 3 octets ({}): {} deliveries, error {err:?}", if per_frame { "one frame per read" } else { "one fragment per read" }, got.len()));
+        }
+        let ok = err.is_none()
+            && got.len() == 2
+            && matches!(&got[0], TransportOut::Fragment { src, broadcast: None, data, .. } if *src == PEER && *data == frag)
+            && matches!(&got[1], TransportOut::Fragment { src, broadcast: None, data, .. } if *src == PEER && *data == tail);
+        if !ok {
+            res.violation = Some(Violation::new(
+                "C08.D3",
+                "fragments-after-a-frame-cut-after-its-header-not-delivered",
+                format!("lost payload {lost_len}, fragment {len}, per-frame reads {per_frame}: {} deliveries, error {err:?}", got.len()),
+            ));
+            return res;
+        }
+        res.nontrivial = true;
+        res.model_states.push(index as u64);
+        res
+    }
+}
+
+/// The session layer may look at a completed fragment, keep it and call `read` again before it
+/// takes it (a request retained during a confirm wait).  Two fragments (lengths from the list, all
+/// ordered pairs) and a third, all bytes available at once: with an extra `read` between every
+/// completed `read` and `pop`, each fragment is still delivered once, in order.
+struct RetainedFragment;
+
+const RF_LENS: [usize; 4] = [1, 249, 250, 498];
+
+impl CaseSpace for RetainedFragment {
+    fn name(&self) -> String {
+        "fragment-kept-across-a-further-read".to_string()
+    }
+    fn total(&self) -> usize {
+        RF_LENS.len() * RF_LENS.len()
+    }
+    fn run(&self, index: usize, transcript: bool) -> RunResult {
+        let mut res = RunResult::default();
+        res.obs = index as u64 + 393939;
+        let a = body(RF_LENS[index % 4], 5);
+        let b = body(RF_LENS[index / 4], 6);
+        let tail = body(3, 9);
+        let mut r = TransportReaderSeam::new(false, OWN, false, true, false, 2048, false);
+        r.read_again_before_pop = true;
+        let mut stream = Vec::new();
+        let mut seq = 7u8;
+        for f in [&a, &b, &tail] {
+            let segs = transport::segment(f, seq);
+            seq = (seq + segs.len() as u8) & 0x3F;
+            for sgm in &segs {
+                stream.extend(link::frame(link::DIR | link::PRM | link::PRI_UNCONFIRMED_USER_DATA, OWN, PEER, sgm));
+            }
+        }
+        r.handle.push(&stream);
+        let (got, err) = r.drain();
+        res.transitions += 3;
+        let datas: Vec<Vec<u8>> = got.iter().filter_map(|o| if let TransportOut::Fragment { data, .. } = o { Some(data.clone()) } else { None }).collect();
+        if transcript {
+            res.transcript.push(format!("fragments of {}, {} and 3 octets, a further read before every pop: delivered {:?}, error {err:?}", a.len(), b.len(), datas.iter().map(|d| d.len()).collect::<Vec<_>>()));
+        }
+        if err.is_some() || datas != vec![a.clone(), b.clone(), tail] {
+            res.violation = Some(Violation::new(
+                "C08.K1",
+                "fragment-lost-or-replaced-by-a-further-read-before-it-was-taken",
+                format!("fragments of {}, {} and 3 octets: delivered lengths {:?}, error {err:?}", a.len(), b.len(), datas.iter().map(|d| d.len()).collect::<Vec<_>>()),
+            ));
+            return res;
+        }
+        res.nontrivial = true;
+        res.model_states.push(index as u64);
+        res
+    }
+}
+
 pub fn replay(name: &str, path: &[usize]) -> Option<RunResult> {
     for tier in ["quick", "thorough"] {
         let w = build_writer(tier);
@@ -683,6 +813,12 @@ pub fn replay(name: &str, path: &[usize]) -> Option<RunResult> {
     if ConfirmedService.name() == name {
         return Some(ConfirmedService.run(path[0], true));
     }
+    if RetainedFragment.name() == name {
+        return Some(RetainedFragment.run(path[0], true));
+    }
+    if CutAfterHeader.name() == name {
+        return Some(CutAfterHeader.run(path[0], true));
+    }
     if Datagrams.name() == name {
         return Some(Datagrams.run(path[0], true));
     }
@@ -695,6 +831,8 @@ pub fn check(tier: &str) -> i32 {
     c.cases(&build_mutations(tier));
     c.cases(&ConfirmedService);
     c.cases(&Datagrams);
+    c.cases(&CutAfterHeader);
+    c.cases(&RetainedFragment);
     c.finish(
         "model_checking",
         "writer: fragment lengths (every multiple of 249 +-1, 1..=33, 250..=282, 239..=241, 2047, 2048 quick; every length 1..=2048 thorough) x starting transport sequence numbers (6 quick incl. the wrap; all 64 thorough), output compared byte for byte with the reference segmenter and fed to the real transport Reader (link Layer + Assembler) whole, per frame, split inside the first and last frame and bytewise; reader: all applications of <= 2 (3 for 250/498/747-byte fragments in the thorough tier) operators from {drop, duplicate, swap, re-address, clear FIR, set FIR, interleave a second sender, overflow the buffer, turn a segment into a broadcast, skip a sequence number, reset the session before a segment} at the structural positions of the segment streams of fragments of 1/249/250/498/747/2048 bytes into receive buffers 249/250/498/2048, each followed by a clean fragment; deliveries must equal the reference reassembler's exactly (bytes, source, broadcast class) with consecutive fragment ids; confirmed link service: fragments of 1/249/250/349/498/747 octets in CONFIRMED_USER_DATA frames after a link reset, one frame repeated once or twice with the same frame count bit; datagram mode: a datagram cut inside a frame (7 cut points) followed by two fragments, one frame per datagram; non-trivial = at least one operator applied or a multi-chunk round trip; distinct = distinct input",
